@@ -29,6 +29,9 @@
     perDb          a watch entry remembers the database it was taken in (EXEC checks and UNWATCH unregisters there);
                    code: both use the connection's CURRENT database
     rewatchKeeps   WATCH of an already watched key is ignored (first baseline stays); code: baseline replaced
+    watchPurges    WATCH first drops a stored value of the key whose deadline has passed (removal + mark, like the
+                   sweeper), so the baseline is taken on an absent key; code: the expired value stays and makes
+                   `was_modified_since` true although nothing changed after WATCH
   Whether a storage function marks is not a switch: it is data of the operation, read from the table.
 -/
 import FerrousSpec.Model.Bytes
@@ -156,10 +159,11 @@ deriving DecidableEq, Repr
 structure Q where
   perDb : Bool
   rewatchKeeps : Bool
+  watchPurges : Bool
 deriving DecidableEq, Repr
 
-def Q.code : Q := ⟨false, false⟩
-def Q.fixed : Q := ⟨true, true⟩
+def Q.code : Q := ⟨false, false, false⟩
+def Q.fixed : Q := ⟨true, true, true⟩
 
 structure State where
   /-- (db, shard) ↦ tracker -/
@@ -240,13 +244,29 @@ deriving DecidableEq, Repr
 /-- the database in which a watch entry is checked / unregistered -/
 def effDb (q : Q) (cn : Conn) (w : W) : Nat := if q.perDb then w.regDb else cn.db
 
+/-- removal of `(d, k)` if its deadline has passed: the sweeper's deletion (`marks` from the table), and the purge
+    at WATCH time of the `watchPurges` variant -/
+def sweepKey (s : State) (d : Nat) (k : Key) (marks : Bool) (now : Nat) : State :=
+  match s.entry d k with
+  | some e =>
+    if e.expired now then
+      let s' := s.setEntry d k none
+      if marks then markKey s' d k else s'
+    else s
+  | none => s
+
+/-- `register_watch` of the `watchPurges` variant: an expired stored value is dropped (and marked) first -/
+def purgeAtWatch (q : Q) (s : State) (d : Nat) (k : Key) (now : Nat) : State :=
+  if q.watchPurges then sweepKey s d k true now else s
+
 /-- one key of `handle_watch` -/
-def watchKey (q : Q) (c : Nat) (s : State) (k : Key) : State :=
+def watchKey (q : Q) (c : Nat) (now : Nat) (s : State) (k : Key) : State :=
   let cn := s.conn c
   if q.rewatchKeeps && cn.watched.any (fun w => decide (w.key = k) && decide (w.regDb = cn.db)) then s
   else
-    let r := (s.tracker cn.db (shardOf k)).register k
-    let s' := s.setTracker cn.db (shardOf k) r.1
+    let s1 := purgeAtWatch q s cn.db k now
+    let r := (s1.tracker cn.db (shardOf k)).register k
+    let s' := s1.setTracker cn.db (shardOf k) r.1
     let others := cn.watched.filter (fun w => !(decide (w.key = k) && (!q.perDb || decide (w.regDb = cn.db))))
     s'.setConn c { cn with watched := ⟨k, r.2, cn.db⟩ :: others }
 
@@ -258,20 +278,11 @@ def unregisterW (q : Q) (cn : Conn) (s : State) (w : W) : State :=
 def execAborts (q : Q) (s : State) (cn : Conn) (now : Nat) : Bool :=
   cn.watched.any (fun w => wasModifiedSince s (effDb q cn w) w.key w.base now)
 
-def sweepKey (s : State) (d : Nat) (k : Key) (marks : Bool) (now : Nat) : State :=
-  match s.entry d k with
-  | some e =>
-    if e.expired now then
-      let s' := s.setEntry d k none
-      if marks then markKey s' d k else s'
-    else s
-  | none => s
-
 def step (q : Q) (s : State) (now : Nat) : Ev → State × Reply
   | .watch c keys =>
     let cn := s.conn c
     if keys.isEmpty || cn.inTx then (s, .err)
-    else (keys.foldl (watchKey q c) s, .ok)
+    else (keys.foldl (watchKey q c now) s, .ok)
   | .unwatch c =>
     let cn := s.conn c
     let s' := cn.watched.foldl (unregisterW q cn) s
